@@ -124,6 +124,9 @@ def canon(o):
         return None
     if isinstance(o, bool):
         return {'b': o}
+    import enum
+    if isinstance(o, enum.Enum):
+        return {'e': type(o).__qualname__, 'v': int(o)}
     if isinstance(o, int):
         return {'i': int(o)}
     if isinstance(o, str):
@@ -313,6 +316,31 @@ def do_immut(eolib, job):
     s2 = ser_bytes(cls, obj)
     if s2 != s1:
         problems.append(f"serialization changed after the caller mutated the lists the object was built from: {s1} -> {s2}")
+    # the same instance serialized again into the SAME long-lived writer: after a header byte, after itself, and after a
+    # failed serialization of another (invalid) object on that writer
+    if s1[0] == 'ok':
+        from eolib.data.eo_writer import EoWriter
+        W = EoWriter()
+        W.add_byte(7)
+        segs = []
+        try:
+            for step in ('after-header', 'again', 'after-failed-other'):
+                if step == 'after-failed-other':
+                    if not job.get('poison'):
+                        break
+                    try:
+                        pobj = build(eolib, job['poison']['value'])
+                        find_class(eolib, job['poison']['cls']).serialize(W, pobj)
+                    except BaseException:
+                        pass
+                n0 = len(W)
+                cls.serialize(W, obj)
+                segs.append((step, list(W.to_bytearray())[n0:]))
+        except BaseException as e:
+            problems.append(f"re-serializing the same instance on a used writer raised {type(e).__name__}: {e}")
+        for step, seg in segs:
+            if seg != s1[1]:
+                problems.append(f"the same instance serialized {step} on a long-lived writer gives {seg}, a fresh writer gave {s1[1]}")
     poke(obj, problems, 'constructed')
     s3 = ser_bytes(cls, obj)
     if s3 != s1:
